@@ -20,6 +20,7 @@ from harness.apps import flush, make_app, rctx
 
 COMPONENTS = ("broker", "orchestrator", "state_backend", "trigger", "client_data_store")
 BIG = "B" * 3000  # larger than client data store's min_size_to_cache (1024): stored externally
+MID = "m" * 700    # serialized form between 500 and 1024 characters: stored inline, long enough for a page to want to shorten it
 
 # ------------------------------------------------------------------------------------------------
 # the monitored application and its operation history
@@ -93,6 +94,8 @@ class World:
             if k == "call":
                 t = self.tasks[op[1]]
                 self._new(t(*op[2]))
+                if any(isinstance(x, str) and len(x) > 400 for x in op[2]):
+                    self.special = getattr(self, "special", []) + [self.inv[-1]]
             elif k == "child":
                 p = self._i(op[1])
                 if p is None:
@@ -131,7 +134,8 @@ class World:
             elif k == "atomic":
                 now = dt.datetime.now(dt.UTC)
                 o.register_runner_heartbeats([op[1]], True)
-                o.record_atomic_service_execution(self._runner(op[1]), now - dt.timedelta(seconds=2), now)
+                self._runner(op[1])
+                o.record_atomic_service_execution(op[1], now - dt.timedelta(seconds=2), now)     # (takes the runner id)
             elif k == "wait":
                 i = self._i(op[1])
                 js = [self._i(j) for j in op[2]]
@@ -177,7 +181,7 @@ def scripted_histories() -> dict[str, list[list]]:
     lifecycle = [
         ["heartbeat", ["rA", "rB"], False], ["atomic", "rA"],
         ["call", "add", [1, 2]], ["call", "add", [3, 4]], ["call", "keyed", ["k1", "v"]], ["call", "add", [5, 6]],
-        ["call", "ident", [BIG]], ["call", "add", [7, 8]], ["call", "keyed", ["k2"]],
+        ["call", "ident", [BIG]], ["call", "add", [7, 8]], ["call", "keyed", ["k2"]], ["call", "ident", [MID]],
         ["claim", "rA", 3], ["status", 0, "RUNNING", "rA"], ["status", 1, "RUNNING", "rA"], ["finish", 0, "rA", 3],
         ["fail", 1, "rA", "boom"], ["claim", "rB", 1], ["status", 3, "RUNNING", "rB"], ["retry", 3, "rB"],
         ["incretry", 2], ["heartbeat", ["rA"], True],
@@ -599,7 +603,14 @@ MALFORMED = ["not-a-uuid", "%20", "..", "x" * 300, "ünï", "a:b", "0", "None", 
 
 def _existing(w: World, rng, what: str) -> str | None:
     """a value that exists in the monitored app for a path/query parameter"""
+    special = [i for i in getattr(w, "special", []) if i in w.inv]      # invocations with an unusual payload: asked for half of the time
+    forced = getattr(w, "force_inv", None)
+    if forced is not None and forced in w.inv and what in ("invocation", "call"):
+        special = [forced]
+        rng = type("Always", (), {"random": staticmethod(lambda: 0.0), "choice": staticmethod(lambda xs: xs[0])})()
     if what == "invocation":
+        if special and rng.random() < 0.5:
+            return rng.choice(special)
         return rng.choice(w.inv) if w.inv else None
     if what == "runner":
         return rng.choice(w.runners) if w.runners else None
@@ -608,7 +619,7 @@ def _existing(w: World, rng, what: str) -> str | None:
     if what == "call":
         if not w.inv:
             return None
-        o = w.invobj.get(rng.choice(w.inv))
+        o = w.invobj.get(rng.choice(special) if special and rng.random() < 0.5 else rng.choice(w.inv))
         return o.call.call_id.key if o is not None else None
     if what == "workflow_type":
         return rng.choice(list(w.tasks.values())).task_id.key
@@ -622,6 +633,7 @@ def _existing(w: World, rng, what: str) -> str | None:
     return None
 
 
+LAZY_TASK_KEYS = ["harness.tasks.c02_body", "harness.tasks.tree", "pynenc.core_tasks.recover_pending_invocations", "pynenc.core_tasks.recover_running_invocations"]
 PATH_KIND = {"invocation_id": "invocation", "runner_id": "runner", "task_id_key": "task", "call_id_key": "call",
              "workflow_type_key": "workflow_type", "app_id": "app"}
 QUERY_KIND = {"task_id": "task", "workflow_id": "workflow_id", "workflow_type": "workflow_type", "call_id_key": "call"}
@@ -647,6 +659,8 @@ def param_values(name: str, w: World, rng, mode: str) -> Any:
     if name in ints:
         return rng.choice(ints[name][mode])
     if name in QUERY_KIND:
+        if mode == "edge" and QUERY_KIND[name] in ("task", "workflow_type"):
+            return rng.choice(LAZY_TASK_KEYS)
         if mode == "existing":
             return _existing(w, rng, QUERY_KIND[name])
         if mode == "missing":
@@ -686,7 +700,10 @@ def build_url(route: dict, w: World, rng, mode: str, query_names: list[str]) -> 
     for m in re.finditer(r"\{(\w+)(?::\w+)?\}", route["path"]):
         p = m.group(1)
         kind = PATH_KIND.get(p)
-        if mode == "existing" or (mode == "edge" and kind != "invocation"):
+        if mode == "edge" and kind in ("task", "workflow_type"):
+            # a task the monitored application has NOT registered (yet) but that can be resolved: a lazily imported module, a core task
+            v = rng.choice(LAZY_TASK_KEYS)
+        elif mode == "existing" or (mode == "edge" and kind != "invocation"):
             v = _existing(w, rng, kind) if kind else "x"
             if mode == "edge" and kind == "call" and v:
                 v = v  # keep; query params carry the edge values
